@@ -19,6 +19,13 @@ UNITS = [  # (tick length in time units, global_time_precision)
 ]
 
 
+def start_time(scn):
+    """`initial_global_time` of a scenario: tick `t0` as a time, on the 10^-p grid when a precision is set (the
+    product 3 * 0.1 is not the grid point 0.3)"""
+    t = scn['t0'] * scn['unit']
+    return t if scn['prec'] is None else round(t, scn['prec'])
+
+
 def tok(name):
     return 'tok_' + name
 
@@ -106,8 +113,10 @@ def gen_scenario(rng, max_procs=4, max_steps=3, p_quiet=0.25, allow_empty=True, 
         emit_ticks = rng.choice([1, 2, 3, 4, 5])
     else:
         emit_ticks = None        # the default emit_step = 1 time unit
+    # the engine may be started at any time (`initial_global_time`: resuming a saved run), in ticks
+    t0 = rng.choice([0, 0, 0, 0, 1, 3, 4, 10, -3])
     scn = {'procs': procs, 'steps': steps, 'stepDeps': step_deps, 'store': store,
-           'unit': unit, 'prec': prec, 'calls': calls, 'emit_ticks': emit_ticks, 't0': 0}
+           'unit': unit, 'prec': prec, 'calls': calls, 'emit_ticks': emit_ticks, 't0': t0}
     if emit_flags and rng.random() < 0.5:
         scn['noemit'] = [v for v, _ in store if rng.random() < 0.35]
     return scn
@@ -168,7 +177,7 @@ class Ctx:
         self.bad_times = []
 
     def now(self):
-        t = self.scn['t0'] * self.unit if self.engine is None else self.engine.global_time
+        t = start_time(self.scn) if self.engine is None else self.engine.global_time
         return self.tick(t)
 
     def front_time(self, pid):
@@ -312,7 +321,7 @@ def build_engine(scn, ctx, parallel_ok=False, entry='parts'):
     emit_step, _, _ = emit_params(scn)
     kwargs = dict(emitter={'type': 'verif_spy'}, emit_step=emit_step,
                   global_time_precision=scn['prec'], display_info=False, progress_bar=False,
-                  initial_global_time=scn['t0'] * scn['unit'])
+                  initial_global_time=start_time(scn))
     eng = Engine(processes=processes, steps=steps, flow=flow, topology=topology,
                  initial_state={'vars': init}, **kwargs)
     ctx.engine = eng
